@@ -30,26 +30,55 @@ def lib(name):
 
 
 def group_names(name):
-    """group / descriptor names of a library, read from its data files (independent of GroupLibrary.Load)"""
+    """group / descriptor names of a library, read from its data files by following the include graph from
+    library.yaml (independent of GroupLibrary.Load)"""
     if name not in _names:
         names = []
         base = os.path.join(data_dir(), name)
-        for root, _d, files in sorted(os.walk(base)):
-            for fn in sorted(files):
-                if fn.endswith('.yaml') and fn != 'scheme.yaml':
-                    try:
-                        with open(os.path.join(root, fn)) as f:
-                            d = yaml.load(f, Loader=yaml.BaseLoader)
-                    except Exception:
-                        continue
-                    if isinstance(d, dict):
-                        for sect in ('groups', 'other_descriptors'):
-                            for k in (d.get(sect) or {}):
-                                if k not in names:
-                                    names.append(k)
-                                    _sect[(name, k)] = sect
+        todo = [os.path.join(base, 'library.yaml')]
+        seen = set()
+        while todo:
+            path = todo.pop(0)
+            if path in seen or not os.path.exists(path):
+                continue
+            seen.add(path)
+            with open(path) as f:
+                d = yaml.load(f, Loader=yaml.BaseLoader)
+            if not isinstance(d, dict):
+                continue
+            for inc in d.get('include') or []:
+                todo.append(os.path.join(os.path.dirname(path), inc))
+            for sect in ('groups', 'other_descriptors'):
+                for k in (d.get(sect) or {}):
+                    if sect == 'groups':
+                        k = canonical_group_name(k)     # files spell groups freely; the library keys are canonical
+                    if k not in names:
+                        names.append(k)
+                        _sect[(name, k)] = sect
         _names[name] = names
     return _names[name]
+
+
+def canonical_group_name(text):
+    """centre + peripherals sorted, run-length encoded (own implementation of the documented naming rule)"""
+    import re
+    import collections
+    parts = re.split('[()]', text)
+    centre, per, last = parts[0], [], None
+    for p in parts[1:]:
+        if not p:
+            continue
+        if p.isdigit() and last is not None:
+            per.extend([last] * (int(p) - 1))
+            last = None
+        else:
+            per.append(p)
+            last = p
+    cnt = collections.Counter(per)
+    out = centre
+    for n in sorted(cnt):
+        out += '(%s)' % n + ('' if cnt[n] == 1 else '%d' % cnt[n])
+    return out
 
 
 def raw_yaml(name, fn):
@@ -61,3 +90,43 @@ def is_group(libname, key):
     """True if the name is defined in a 'groups' section (parsed as a Group), False for other_descriptors"""
     group_names(libname)
     return _sect.get((libname, key)) == 'groups'
+
+
+def _num(v):
+    import numbers
+    if v is None:
+        return None
+    if isinstance(v, numbers.Real):
+        return float(v)
+    return 'NON-NUMERIC:%r' % (v,)
+
+
+def fingerprint(lib):
+    """JSON-able content fingerprint of a loaded library (groups, data, uncertainty block, scheme)"""
+    import hashlib
+    import numpy as np
+    groups = {}
+    for g in lib:
+        ps = lib[g]
+        tc = ps.get('thermochem')
+        if tc is None:
+            groups[str(g)] = None
+            continue
+        r = tc.get_range()
+        groups[str(g)] = dict(T_ref=_num(tc.T_ref), H=_num(tc.ND_H_ref), S=_num(tc.ND_S_ref),
+                              cp=sorted([_num(t), _num(c)] for t, c in (tc.ND_Cp_data or {}).items()),
+                              range=None if r is None else [_num(r[0]), _num(r[1])])
+    uq = None
+    if lib.uq_contents:
+        u = lib.uq_contents
+        rm = u['RMSE'].thermochem
+        uq = dict(basis=[str(x) for x in u['descriptors']],
+                  mat=hashlib.sha1(np.ascontiguousarray(np.array(u['mat'], dtype=float)).tobytes()).hexdigest(),
+                  shape=list(np.array(u['mat']).shape), dof=u['dof'],
+                  rmse=dict(T_ref=_num(rm.T_ref), H=_num(rm.ND_H_ref), S=_num(rm.ND_S_ref),
+                            cp=sorted([_num(t), _num(c)] for t, c in (rm.ND_Cp_data or {}).items())))
+    sch = lib.scheme
+    scheme = dict(patterns=[[p['center_name'], p['periph_name'], str(p['connectivity'])[:0]] for p in sch.patterns],
+                  n_patterns=len(sch.patterns), n_other=len(sch.other_descriptors),
+                  remaps={str(k): [[float(a), str(b)] for a, b in v] for k, v in (sch.remaps or {}).items()})
+    return dict(groups=groups, uq=uq, scheme=scheme)
